@@ -132,6 +132,60 @@ def parse_and_transform(chk, repo, rule, modname, struct_name, transform_name, o
     return rs, rt
 
 
+def opener_eval(chk, repo, rule, modname, transform_name, opener, attrs_cases, names):
+    """<opener>(mapper, path) evaluated (the checker's interpreter) with recording stubs: the mapper hands out the file's bytes,
+    parse_data gives a marker for those bytes, <transform> gives a group whose attributes hold the text under test.  Whatever
+    the attributes hold and whatever the file is called, the opener returns that very group, with those attributes, and does not
+    raise: nothing between the transform and the caller looks at the contents"""
+    from collections import OrderedDict
+    from ..shapes import Const, DictS, Fn, Interp, NonTermination, Obj, ShapeError, _Raise
+    mod = repo.module(modname)
+    where = f"{mod.relpath}:{opener}"
+    chk.rule(rule, f"{opener} returns what {transform_name} built from the parsed bytes of that file, for any field contents and file name (evaluated with recording stubs)", len(attrs_cases) * len(names))
+    for name in names:
+        for label, attrs in attrs_cases:
+            I = Interp(repo)
+            sc = I.module_scope(mod)
+            seen = {}
+            raw = Const(b"raw bytes of " + name.encode())
+            parsed = DictS(OrderedDict(marker=Const("parsed")))
+            group = Obj("Group", OrderedDict(path=Const("/"), url=Const(None), data=DictS(), attrs=DictS(OrderedDict((k, Const(v)) for k, v in attrs.items()))))
+
+            def getitem(I_, a, kw):
+                seen.setdefault("keys", []).append(a[0].v if isinstance(a[0], Const) else repr(a[0]))
+                return raw
+
+            def parse_data(I_, a, kw):
+                seen["parsed_from"] = a[0] if a else None
+                return parsed
+
+            def transform(I_, a, kw):
+                seen["transformed"] = a[0] if a else None
+                return group
+            mapper = Obj("Mapper", OrderedDict(root=Const("memory://product"), __getitem__=Fn("py", impl=getitem, name="__getitem__"),
+                                               __contains__=Fn("py", impl=lambda I_, a, kw: Const(True), name="__contains__")))
+            mapper.fields["get"] = Fn("py", impl=lambda I_, a, kw: getitem(I_, a[:1], {}), name="get")
+            sc.vars["parse_data"] = Fn("py", impl=parse_data, name="parse_data")
+            sc.vars[transform_name] = Fn("py", impl=transform, name=transform_name)
+            sit = f"file {name!r}, fields {label}"
+            try:
+                out = I.call(I.lookup(opener, sc), [mapper, Const(name)], {})
+            except _Raise as e:
+                if "transformed" not in seen:
+                    raise AnalysisError(f"{where}: raises before {transform_name} is reached with recording stubs ({sit}: {e.what[:80]}); the opener is not in a form the stubs fit, not decided")
+                chk.fail(rule, where, f"{sit}: {opener} raises {e.what[:90]} although the file is there and parses: the result depends on what the text fields hold", key=f"{opener}:eval:raises")
+                continue
+            except (ShapeError, NonTermination, RecursionError) as e:
+                raise AnalysisError(f"{where}: cannot be evaluated with recording stubs ({sit}): {str(e)[:140]}")
+            if seen.get("parsed_from") is not raw or seen.get("transformed") is not parsed:
+                raise AnalysisError(f"{where}: parse_data / {transform_name} are not reached as module-level collaborators ({sit}); the opener is not in a form the stubs fit, not decided")
+            ok = out is group and seen.get("keys") == [name]
+            now = {k: (v.v if isinstance(v, Const) else repr(v)) for k, v in group.fields["attrs"].items.items()} if isinstance(group.fields.get("attrs"), DictS) else None
+            chk.require(ok and now == attrs, rule, where, f"{sit}: the group built from the file's parsed bytes is returned unchanged",
+                        f"{sit}: {opener} " + ("does not return the group the transform built" if out is not group else f"reads {seen.get('keys')}" if seen.get("keys") != [name] else
+                                                "does not transform the parsed bytes of that file" if not ok else f"changes the attributes to {str(now)[:100]}"), key=f"{opener}:eval:passthrough")
+
+
 def record_type_dispatch(chk, repo, rule):
     """sar_image.io: record type 10 -> signal data record, 11 -> processed data record; preamble is the first 12 bytes"""
     io = repo.module("ceos_alos2.sar_image.io")
